@@ -219,8 +219,8 @@ theorem no_instant_skipped {cfg : Cfg} (hR : 0 < cfg.rule) (hH : 0 < cfg.hyd) (h
         ∃ d ∈ presolveDue cfg false e.2, d.ctl = c ∧ e.2.simTime - d.back = thr ∧
           changed e.2.vals (((presolveDue cfg false e.2).takeWhile (fun x => decide (d.back ≤ x.back))).foldl (fun v x => x.run v) e.2.vals) = false) := by
   rw [runSim_eq prevTime vals hleft] at h2
-  obtain ⟨e, he, hinv, hj, hp, hl, hfirst⟩ := runTrace_cover hR hH (fun s => NodupKeys s.vals)
-    (fun f s _ hj => hj.stepOnce f) thr _ (simTime == 0) _ [] (startState_inv hR vals h) hnd h1 h2
+  obtain ⟨e, he, hinv, hj, hp, hl, hfirst⟩ := runTrace_cover hR hH (fun s => NodupKeys s.vals) (fun _ => True)
+    (fun f s _ hj _ => hj.stepOnce f) thr _ (simTime == 0) _ [] (startState_inv hR vals h) hnd (fun _ => trivial) h1 h2
   refine ⟨e, he, hp, hl, ?_⟩
   have L := presolve_landed hR e.1 hinv
   by_cases heq : (presolve cfg e.1 e.2).simTime = thr
